@@ -123,6 +123,11 @@ def check_failure_table(rep: Report, prog: Program) -> None:
             rep.fail("R3.5", "_handle_failure|strategy-twice", "strategy evaluated more than once on a path", where=path_where(prog, HANDLE_FAILURE, p), function=HANDLE_FAILURE, path=p.describe())
         else:
             rep.ok("R3.5")
+    # ... and the token is spent exactly for a granted retry (= C10 R10.3 gate rows): never before a stop that is
+    # decided afterwards (deadline, cap), never without the retry following
+    from .c10 import gate_rows
+
+    gate_rows(rep, "R3.5", prog)
     rep.floor("R3.5", 8)
 
 
